@@ -1057,6 +1057,11 @@ def cases(rng, tier):
     for _ in range(300 if quick else 5000):
         l = [rng.choice(small) for _ in range(rng.choice([0, 1, 2, 2, 3]))]
         yield ("nmap_iter", [l, table_for(l)], "nmap_multi")
+    # specs whose trailing octets are full: tens of thousands of addresses, enumerated completely (a block-size shortcut for wildcard
+    # octets shows only beyond the first few hundred addresses)
+    for s in (["10.7.0-255.0-255"], ["10.7.-.-"], ["192.168.254-255.-", "10.0-1.0.0-"]) if tier == "quick" else (
+            ["10.7.0-255.0-255"], ["10.7.-.-"], ["192.168.254-255.-", "10.0-1.0.0-"], ["255.254-255.-.-"], ["0.0-1.0-255.0-255"], ["1.2,4.3-.-"]):
+        yield ("nmap_iter", [s, table_for(s)], "nmap_big")
     for c in pystr_cases.cases(rng, tier):
         yield c
 
